@@ -242,7 +242,33 @@ def main(argv=None):
         hook = getattr(mods[mn], 'extra_checks', None)
         if hook is not None:
             extra += hook(pid, tier, seed)
+    if tier == 'thorough' and ns.only is None:
+        extra.append(canaries(pid, cfg, mods, reports, ns.jobs))
     return finish(pid, tier, seed, cfg, reports, extra, t0, partial=ns.only is not None)
+
+
+def canaries(pid, cfg, mods, reports, jobs, per_contract=2, max_seconds=90):
+    """thorough tier: vacuity probe by mutation -- for every contract that verified quickly, up to `per_contract` built-in AST mutants of its
+    function (negated test, swapped relational operator, dropped statement ...) are verified against the unchanged contract; a mutant is killed
+    when some obligation fails.  Reported in the evidence; survivors point at weak clauses and do not change the verdict."""
+    from . import canary
+    from .classtable import table
+    quick = {r['id'] for r in reports if r.get('kindof') == 'function' and r.get('status') == 'ok' and (r.get('seconds') or 0) <= max_seconds}
+    tasks = []
+    for mn in cfg['modules']:
+        for i, c in enumerate(getattr(mods[mn], 'CONTRACTS', [])):
+            if pid not in c.property_ids or c.key not in quick or c.key not in table().functions:
+                continue
+            node, _ = table().functions[c.key]
+            for (label, nidx, what) in canary.mutants(node)[:per_contract]:
+                tasks.append((mn, i, label, nidx, what))
+    t0 = time.time()
+    res = []
+    if tasks:
+        with mp.Pool(min(jobs, len(tasks))) as pool:
+            res = pool.map(canary.work, tasks, chunksize=1)
+    survivors = [f"{k}:{label}" for (k, label, dead, why) in res if not dead]
+    return dict(kind='canary', name='mutation probe', mutants=len(res), killed=sum(1 for r in res if r[2]), survivors=survivors, seconds=round(time.time() - t0, 1))
 
 
 def finish(pid, tier, seed, cfg, reports, extra, t0, partial=False):
@@ -311,6 +337,7 @@ def finish(pid, tier, seed, cfg, reports, extra, t0, partial=False):
             print(f"        {ob['result']:<7} {ob['name']}  {ob.get('model', '')}  carved={ob.get('carved')} replay={ob.get('replay')}")
     bounded = []
     frame_rows = []
+    canary_row = None
     for ex in extra:
         if ex.get('kind') == 'frame':
             for o in ex['obligations']:
@@ -331,6 +358,12 @@ def finish(pid, tier, seed, cfg, reports, extra, t0, partial=False):
                     print(f"[FAIL] frame {o['name']} line {o.get('line')}: {o['detail'][:200]}")
                 else:
                     undecided.append(f"{o['name']}: {o['detail'][:160]}")
+            continue
+        if ex.get('kind') == 'canary':
+            canary_row = ex
+            print(f"[canary] mutants={ex['mutants']} killed={ex['killed']} survivors={len(ex['survivors'])} {ex['seconds']}s")
+            for sv in ex['survivors']:
+                print(f"        survivor {sv}")
             continue
         if ex.get('kind') == 'bounded':
             bounded.append(ex)
@@ -355,7 +388,7 @@ def finish(pid, tier, seed, cfg, reports, extra, t0, partial=False):
               coverage=dict(obligations=n_obl, discharged=n_dis,
                             checker_cmd=f"./check {pid} --tier {tier}",
                             trusted_base=TRUSTED_BASE + list(cfg.get('trusted', [])),
-                            functions_under_contract=functions, lemmas=lemmas, backends=backends, solver_seconds=round(solver_s, 3),
+                            functions_under_contract=functions, lemmas=lemmas, mutation_probe=canary_row, backends=backends, solver_seconds=round(solver_s, 3),
                             samples=samples or [dict(note='no non-trivial obligation sampled')],
                             known_findings=known_lines, bounded=bounded, frame_exemptions=frame_rows,
                             undecided=undecided, checker_errors=errors,
